@@ -116,7 +116,7 @@ func (g *G) retBlock(depth, n int) ([]Stmt, bool) {
 func (g *G) retStmt(depth int) ([]Stmt, bool) {
 	i32 := IntT(32, true)
 	e := &Type{K: KEnum, Name: "E0", Variants: []string{"V0", "V1", "V2"}}
-	kind := g.intRange(0, 10, "rkind")
+	kind := g.intRange(0, 12, "rkind")
 	if depth <= 0 {
 		kind = g.intRange(0, 2, "rleaf")
 	}
@@ -232,6 +232,27 @@ func (g *G) retStmt(depth int) ([]Stmt, bool) {
 		}
 		inner = append(inner, &Break{})
 		return []Stmt{&While{Cond: &Lit{T: TBool, B: true}, Body: inner}}, false
+	case 11, 12: // a loop guarded by a mutable flag (or a constant-valued condition) that may be re-armed afterwards
+		fl := g.fresh("fl")
+		fv := &Var{T: TBool, Name: fl}
+		var init Expr
+		switch g.intRange(0, 3, "flinit") {
+		case 0:
+			init = &Lit{T: TBool, B: false}
+		case 1:
+			init = &Lit{T: TBool, B: true}
+		default:
+			init = g.retCond()
+		}
+		inner, _ := g.retBlock(depth-1, g.intRange(1, 2, "nbody"))
+		body := append([]Stmt{&Assign{LHS: fv, Op: "=", RHS: &Lit{T: TBool, B: false}}}, inner...)
+		out := []Stmt{&Let{Name: fl, T: TBool, Init: init, Infer: g.chance(2, "flinfer")}, &While{Cond: fv, Body: body}}
+		if g.chance(2, "rearm") {
+			// the textually last assignment makes the flag "true" for a flow-insensitive analysis
+			out = append(out, &Assign{LHS: fv, Op: "=", RHS: &Lit{T: TBool, B: true}})
+		}
+		g.use("returns.flag_loop")
+		return out, false
 	default:
 		n := g.fresh("t")
 		return []Stmt{&Let{Name: n, T: i32, Init: g.retExpr()}, &Print{Args: []Expr{&Var{T: i32, Name: n}}}}, false
